@@ -125,6 +125,8 @@ def rand_case(rng, max_o, max_s, max_f, chain=0.25, clade=0.3, band=0.0):
     case = {"S": S, "O": O, "costs": c}
     if rng.random() < 0.4:    # family names of different lengths / cases (the model knows families as numbers only)
         case["fnames"] = rng.choice([1, 2])
+    if rng.random() < 0.15:   # an LCA structure was built on the same species tree while children were in another order
+        case["prime_lca"] = True
     if rng.random() < 0.3:    # trees decorated with branch lengths / supports
         case["dist"] = rng.randrange(1 << 30)
     if rng.random() < 0.25:   # same input object solved before under other costs (see recon.primed)
